@@ -585,9 +585,11 @@ class ISD(model.Document):
 
         isd_element.set_style(initial_style, initial_value)
 
-    # compute style properties
+    # compute style properties, except on br elements: none applies to them, and they have neither the font size
+    # nor the extent that lengths are resolved against
 
-    ISD._compute_styles(styles_to_be_computed, parent, isd_element)
+    if not isinstance(element, model.Br):
+      ISD._compute_styles(styles_to_be_computed, parent, isd_element)
 
     # prune element is display is "none"
 
